@@ -62,8 +62,9 @@ struct Annot : Profile {
         int nops = (int)r.range(15, thorough ? 110 : 70);
         auto tlen = [&]() { return r.chance(0.15) ? r.range(100, 300) : r.range(1, 40); };
         static const std::vector<int> w     = {/*create*/ 22, /*rewrite*/ 12, /*read*/ 14, /*list*/ 8, /*fileinfo*/ 5, /*select*/ 6,
-                                               /*endaccess*/ 5, /*dfanput*/ 6, /*dfanget*/ 5, /*restart*/ 4, /*dfanburst*/ 1};
-        static const char            *names[] = {"create", "rewrite", "read", "list", "fileinfo", "select", "endaccess", "dfanput", "dfanget", "restart", "dfanburst"};
+                                               /*endaccess*/ 5, /*dfanput*/ 6, /*dfanget*/ 5, /*restart*/ 4, /*dfanburst*/ 1, /*dfanrecreate*/ 2};
+        bool desconly = r.chance(0.3); // the single-file interface is used for descriptions only (its label directory is never built)
+        static const char            *names[] = {"create", "rewrite", "read", "list", "fileinfo", "select", "endaccess", "dfanput", "dfanget", "restart", "dfanburst", "dfanrecreate"};
         for (int i = 0; i < nops; i++) {
             int k = r.weighted(w);
             switch (k) {
@@ -89,13 +90,16 @@ struct Annot : Profile {
                     p.ops.push_back(mkop(0, names[k], {(int64_t)r.below(4)}));
                     break;
                 case 7: // file, kind (0 label 1 desc 2 file id 3 file desc), target, length, data
-                    p.ops.push_back(mkop(0, names[k], {(int64_t)r.below(2), (int64_t)r.below(4), (int64_t)r.below(3), tlen(), (int64_t)(r.next() >> 16)}));
+                    p.ops.push_back(mkop(0, names[k], {(int64_t)r.below(2), desconly ? 1 + 2 * (int64_t)r.below(2) : (int64_t)r.below(4), (int64_t)r.below(3), tlen(), (int64_t)(r.next() >> 16)}));
                     break;
                 case 8:
-                    p.ops.push_back(mkop(0, names[k], {(int64_t)r.below(2), (int64_t)r.below(2), (int64_t)r.below(3)}));
+                    p.ops.push_back(mkop(0, names[k], {(int64_t)r.below(2), desconly ? 1 : (int64_t)r.below(2), (int64_t)r.below(3)}));
                     break;
                 case 10: // file, label/description, how many objects (the single-file interface keeps its directory in blocks of 16), seed
-                    p.ops.push_back(mkop(0, names[k], {(int64_t)r.below(2), (int64_t)r.below(2), r.range(14, 52), (int64_t)(r.next() >> 16)}));
+                    p.ops.push_back(mkop(0, names[k], {(int64_t)r.below(2), desconly ? 1 : (int64_t)r.below(2), r.range(14, 52), (int64_t)(r.next() >> 16)}));
+                    break;
+                case 11:
+                    p.ops.push_back(mkop(0, names[k], {}));
                     break;
             }
         }
@@ -468,6 +472,19 @@ struct Annot : Profile {
                 ctx.probe("dfan-burst");
                 if (cnt > 32)
                     ctx.probe("dfan-burst>32");
+            }
+            else if (k == "dfanrecreate") {
+                // the second file is made anew under its old name, and the single-file interface is told so (DFANclear drops what
+                // it remembers of the last file): annotations of the old file are gone, the ones put from now on are the file's
+                close_an(s);
+                int32 nf = Hopen(path(1).c_str(), DFACC_CREATE, (int16)ndds);
+                if (nf == FAIL || Hclose(nf) == FAIL)
+                    ctx.fail("open-failed", "open-failed:recreate", "creating the second file anew failed");
+                if (DFANclear() == FAIL)
+                    ctx.fail("write-refused", "write-refused:dfanclear", "DFANclear failed");
+                s.a[1].clear();
+                s.on_disk[1] = true;
+                ctx.probe("file-made-anew-and-dfanclear");
             }
             else if (k == "dfanput" || k == "dfanget") {
                 int    f = modn(o.arg(0), 2), kind = modn(o.arg(1), k == "dfanput" ? 4 : 2);
